@@ -12,6 +12,13 @@ package arbitrator
 // go through arbitratorImpl.Filter first) interleave at every lock of the package and before every API call;
 // between rounds the environment (migration controller stub, kubelet, workload controllers, users) moves jobs
 // and pods. See /verif/DESIGN.md §4 C16 (a).
+//
+// Reads of PodMigrationJobs by the code under test are served from a simulated informer cache that is fed by the very
+// event stream the handler receives (cache first, then handler, as a shared informer does): it lags the arbitrator's
+// own writes until the informer actor delivers them, possibly rounds later; a periodic resync re-delivers every cached
+// (possibly stale) job as an Update event. Pods evicted by a succeeded job or deleted by their owner go through a
+// graceful termination (deletionTimestamp set, still Running and Ready) before they disappear. All oracles are
+// evaluated over the store (the API server's truth), never over the cache.
 
 import (
 	"context"
@@ -72,8 +79,13 @@ type arbiterEngine struct{}
 func (arbiterEngine) Name() string { return "arbiter" }
 
 // history class of the recorded defect: the Update that stores the passed-arbitration annotation was applied by the
-// API server but reported as failed to the arbitrator (lost acknowledgement).
-const arbTagLostAck = "passed-update-lost-ack"
+// API server but reported as failed to the arbitrator (lost acknowledgement), AND the arbitrator's limit filters then
+// listed the jobs from an informer cache that had not yet received that write (the job is passed in the API server,
+// but neither the arbitrator's memory nor its cache says so).
+const arbTagLostAck = "lost-ack-hidden-by-cache-lag"
+
+// finalizer that keeps a gracefully deleted pod in the store for its termination period
+const arbGraceFinalizer = "verif.sim/graceful-termination"
 
 // ---------------------------------------------------------------- plan types
 
@@ -108,7 +120,7 @@ type arbCfg struct {
 }
 
 type arbOp struct {
-	K     string `json:"k"` // round | seed | create | dup_add | start | finish | delete_job | pod_ready | pod_delete | pod_replace | scale
+	K     string `json:"k"` // round | seed | create | dup_add | resync | start | finish | delete_job | pod_ready | pod_delete | pod_replace | pod_terminate | pod_gone | scale | sync
 	J     int    `json:"j,omitempty"`
 	P     int    `json:"p,omitempty"`
 	W     int    `json:"w,omitempty"`
@@ -182,27 +194,39 @@ func (arbiterEngine) Generate(p *sim.Plan, g *sim.Rng) {
 	for rd := 0; rd < rounds; rd++ {
 		// environment between rounds
 		if rd > 0 {
-			for i := g.Intn(5); i > 0; i-- {
-				switch g.Intn(10) {
+			for i := g.Intn(6); i > 0; i-- {
+				switch g.Intn(16) {
 				case 0, 1, 2:
 					ops = append(ops, arbOp{K: "start"})
-				case 3, 4:
-					ops = append(ops, arbOp{K: "finish", Phase: g.Pick("Succeeded", "Succeeded", "Failed", "Aborted")})
-				case 5:
-					ops = append(ops, arbOp{K: "delete_job"})
+				case 3, 4, 5:
+					ops = append(ops, arbOp{K: "finish", Phase: g.Pick("Succeeded", "Succeeded", "Succeeded", "Failed", "Aborted")})
 				case 6:
-					ops = append(ops, arbOp{K: "pod_ready", P: g.Intn(nPods), V: g.Intn(2)})
+					ops = append(ops, arbOp{K: "delete_job"})
 				case 7:
-					ops = append(ops, arbOp{K: "pod_delete", P: g.Intn(nPods)})
+					ops = append(ops, arbOp{K: "pod_ready", P: g.Intn(nPods), V: g.Intn(2)})
 				case 8:
-					ops = append(ops, arbOp{K: "pod_replace", P: g.Intn(nPods), V: g.Intn(cfg.Nodes)})
+					ops = append(ops, arbOp{K: "pod_delete", P: g.Intn(nPods)})
 				case 9:
+					ops = append(ops, arbOp{K: "pod_replace", P: g.Intn(nPods), V: g.Intn(cfg.Nodes)})
+				case 10:
 					w := g.Intn(nW)
 					v := g.Range(1, 10)
 					if cfg.WlPercent {
 						v = g.PickInt(4, 8)
 					}
 					ops = append(ops, arbOp{K: "scale", W: w, V: v})
+				case 11:
+					// a pod is deleted gracefully by its owner / a user / the kubelet (not through a migration job)
+					ops = append(ops, arbOp{K: "pod_terminate", P: g.Intn(nPods)})
+				case 12:
+					// a terminating pod finally disappears
+					ops = append(ops, arbOp{K: "pod_gone"})
+				case 13, 14:
+					// periodic resync of the job informer: every cached job is delivered again as an Update event
+					ops = append(ops, arbOp{K: "resync"})
+				case 15:
+					// the job informer catches up with the API server
+					ops = append(ops, arbOp{K: "sync"})
 				}
 			}
 		}
@@ -229,6 +253,9 @@ func (arbiterEngine) Generate(p *sim.Plan, g *sim.Rng) {
 			ops = append(ops, op)
 			if g.Bool(0.08) {
 				ops = append(ops, arbOp{K: "dup_add", J: g.Intn(nextJob)})
+			}
+			if g.Bool(0.06) {
+				ops = append(ops, arbOp{K: "resync"}) // a resync that falls into the round
 			}
 		}
 		ops = append(ops, arbOp{K: "round"})
@@ -279,11 +306,17 @@ type arbSim struct {
 	jobM       map[string]*sev1alpha1.PodMigrationJob // mirror of the store's jobs (name)
 	replicas   []int                                 // current spec.replicas per workload
 	events     []arbEvent
+	// cache: the informer cache of PodMigrationJobs the code under test reads from (job name -> object as of the last
+	// delivered event). It is updated by the informer actor immediately before the event reaches the real handler.
+	cache         map[string]*sev1alpha1.PodMigrationJob
+	resyncPending int      // resyncs requested while a round runs (performed by the informer actor)
+	terminating   []string // "ns/name" of pods in graceful termination, oldest first
 	delivered  map[string]bool // job name -> its Create event reached the arbitrator
 	statusFlt  map[string]bool // job name -> a status update of the arbitrator for it was hit by a fault
 	lostAck    map[string]bool // job name -> its passed-annotation update was applied but reported as failed
-	// lostAckOpen: during the current round some pending job is marked as passed in the store while the arbitrator does not
-	// know it, because the answer to its update was lost (the history class of the recorded defect)
+	// lostAckOpen: during the current round the code under test listed the jobs from its cache while some pending job was
+	// marked as passed in the store, the arbitrator did not remember it because the answer to its update was lost, and the
+	// cache did not show the annotation yet (the history class of the recorded defect)
 	lostAckOpen bool
 	createdBy  map[string]string
 	creatorsOn bool
@@ -352,7 +385,9 @@ func arbSetReady(p *corev1.Pod, ready bool) {
 	p.Status.Conditions = []corev1.PodCondition{{Type: corev1.PodReady, Status: st}}
 }
 
-func arbIsReady(p *corev1.Pod) bool {
+// arbAvailable is the statement's notion of an available pod: active (not terminating, not finished) and ready. A pod in
+// graceful termination is unavailable even while it still reports Running and Ready.
+func arbAvailable(p *corev1.Pod) bool {
 	if p.DeletionTimestamp != nil || p.Status.Phase == corev1.PodSucceeded || p.Status.Phase == corev1.PodFailed {
 		return false
 	}
@@ -369,10 +404,14 @@ func arbIsReady(p *corev1.Pod) bool {
 // controller finder stub: the pods that the store holds for the workload, and the workload's current spec.replicas
 type arbFinder struct{ h *arbSim }
 
-func (f *arbFinder) podsOf(uid types.UID, ns string) []*corev1.Pod {
+func (f *arbFinder) podsOf(uid types.UID, ns string, active bool) []*corev1.Pod {
 	var out []*corev1.Pod
 	for _, p := range f.h.podM {
 		if p.Namespace != ns {
+			continue
+		}
+		// as the real finder: with active=true, pods that are terminating or finished are left out
+		if active && (p.DeletionTimestamp != nil || p.Status.Phase == corev1.PodSucceeded || p.Status.Phase == corev1.PodFailed) {
 			continue
 		}
 		if ref := metav1.GetControllerOf(p); ref != nil && ref.UID == uid {
@@ -392,8 +431,8 @@ func (f *arbFinder) replicasOf(uid types.UID) int32 {
 	return 0
 }
 
-func (f *arbFinder) GetPodsForRef(ref *metav1.OwnerReference, ns string, _ *metav1.LabelSelector, _ bool) ([]*corev1.Pod, int32, error) {
-	return f.podsOf(ref.UID, ns), f.replicasOf(ref.UID), nil
+func (f *arbFinder) GetPodsForRef(ref *metav1.OwnerReference, ns string, _ *metav1.LabelSelector, active bool) ([]*corev1.Pod, int32, error) {
+	return f.podsOf(ref.UID, ns, active), f.replicasOf(ref.UID), nil
 }
 
 func (f *arbFinder) GetExpectedScaleForPod(pod *corev1.Pod) (int32, error) {
@@ -403,10 +442,10 @@ func (f *arbFinder) GetExpectedScaleForPod(pod *corev1.Pod) (int32, error) {
 	return 0, nil
 }
 
-func (f *arbFinder) ListPodsByWorkloads(uids []types.UID, ns string, _ *metav1.LabelSelector, _ bool) ([]*corev1.Pod, error) {
+func (f *arbFinder) ListPodsByWorkloads(uids []types.UID, ns string, _ *metav1.LabelSelector, active bool) ([]*corev1.Pod, error) {
 	var out []*corev1.Pod
 	for _, u := range uids {
-		out = append(out, f.podsOf(u, ns)...)
+		out = append(out, f.podsOf(u, ns, active)...)
 	}
 	return out, nil
 }
@@ -468,8 +507,20 @@ func (h *arbSim) crossCheck() {
 	for i := range pl.Items {
 		p := &pl.Items[i]
 		m := h.podM[p.Namespace+"/"+p.Name]
-		if m == nil || m.ResourceVersion != p.ResourceVersion || m.Spec.NodeName != p.Spec.NodeName || arbIsReady(m) != arbIsReady(p) {
+		if m == nil || m.ResourceVersion != p.ResourceVersion || m.Spec.NodeName != p.Spec.NodeName || arbAvailable(m) != arbAvailable(p) {
 			h.r.HarnessFail("mirror out of sync for pod %s/%s", p.Namespace, p.Name)
+		}
+	}
+	if len(h.events) == 0 {
+		// the informer has delivered everything: its cache must equal the store
+		if len(h.cache) != len(jl.Items) {
+			h.r.HarnessFail("informer cache out of sync: store has %d jobs, cache %d", len(jl.Items), len(h.cache))
+		}
+		for i := range jl.Items {
+			j := &jl.Items[i]
+			if c := h.cache[j.Name]; c == nil || c.ResourceVersion != j.ResourceVersion {
+				h.r.HarnessFail("informer cache out of sync for job %s", j.Name)
+			}
 		}
 	}
 	for i := range jl.Items {
@@ -481,6 +532,91 @@ func (h *arbSim) crossCheck() {
 	}
 }
 
+// ---- the informer cache of jobs
+
+// arbJobIndex evaluates the field indexes pkg/descheduler/fieldindex registers for PodMigrationJobs.
+func arbJobIndex(j *sev1alpha1.PodMigrationJob, field string) (string, bool) {
+	ref := j.Spec.PodRef
+	if ref == nil {
+		return "", false
+	}
+	switch field {
+	case fieldindex.IndexJobByPodUID:
+		return string(ref.UID), true
+	case fieldindex.IndexJobPodNamespacedName:
+		return fmt.Sprintf("%s/%s", ref.Namespace, ref.Name), true
+	case fieldindex.IndexJobByPodNamespace:
+		return ref.Namespace, true
+	}
+	return "", false
+}
+
+// listCachedJobs answers a List of PodMigrationJobs from the informer cache (sorted by name).
+func (h *arbSim) listCachedJobs(out *sev1alpha1.PodMigrationJobList, opts []client.ListOption) {
+	lo := &client.ListOptions{}
+	lo.ApplyOptions(opts)
+	field, val := "", ""
+	if lo.FieldSelector != nil && !lo.FieldSelector.Empty() {
+		reqs := lo.FieldSelector.Requirements()
+		if len(reqs) != 1 {
+			h.r.HarnessFail("job list with %d field requirements", len(reqs))
+		}
+		field, val = reqs[0].Field, reqs[0].Value
+		if _, ok := arbJobIndex(&sev1alpha1.PodMigrationJob{Spec: sev1alpha1.PodMigrationJobSpec{PodRef: &corev1.ObjectReference{}}}, field); !ok {
+			h.r.HarnessFail("job list by unknown field index %q", field)
+		}
+	}
+	names := make([]string, 0, len(h.cache))
+	for n := range h.cache {
+		names = append(names, n)
+	}
+	sort.Strings(names)
+	out.Items = out.Items[:0]
+	for _, n := range names {
+		j := h.cache[n]
+		if field != "" {
+			if v, ok := arbJobIndex(j, field); !ok || v != val {
+				continue
+			}
+		}
+		out.Items = append(out.Items, *j.DeepCopy())
+	}
+	// history classes, decided at the moment the code under test looks at its cache
+	if h.lostAckWindow() {
+		if !h.lostAckOpen {
+			h.r.Probe("jobs-listed-while-lost-ack-job-hidden-by-cache-lag")
+		}
+		h.lostAckOpen = true
+	}
+	if h.timerOn {
+		for _, n := range names {
+			if sj := h.jobM[n]; sj != nil && arbPendingPassed(sj) && h.cache[n].Annotations[AnnotationPassedArbitration] != "true" {
+				h.r.Probe("round-lists-jobs-while-cache-lags-a-passed-annotation")
+				break
+			}
+		}
+	}
+}
+
+// resync: the informer's periodic resync hands every cached object to the handler again as an Update event whose old
+// and new object are the cached one, however stale the cache is.
+func (h *arbSim) resync() {
+	names := make([]string, 0, len(h.cache))
+	for n := range h.cache {
+		names = append(names, n)
+	}
+	sort.Strings(names)
+	for _, n := range names {
+		cj := h.cache[n]
+		if sj := h.jobM[n]; sj != nil && arbPendingPassed(sj) && cj.Annotations[AnnotationPassedArbitration] != "true" {
+			h.r.Probe("resync-delivers-stale-job-whose-passed-annotation-the-cache-lacks")
+		}
+		h.handler.Update(context.TODO(), event.TypedUpdateEvent[client.Object]{ObjectOld: cj.DeepCopy(), ObjectNew: cj.DeepCopy()}, h.queue)
+		h.r.Event("resync update %s rv=%s", n, cj.ResourceVersion)
+	}
+	h.r.Probe("resync")
+}
+
 var arbJobGR = schema.GroupResource{Group: sev1alpha1.GroupVersion.Group, Resource: "podmigrationjobs"}
 
 // API client seen by the code under test: a scheduling point before every call; write faults on PodMigrationJob
@@ -488,8 +624,26 @@ var arbJobGR = schema.GroupResource{Group: sev1alpha1.GroupVersion.Group, Resour
 func (h *arbSim) interceptors() interceptor.Funcs {
 	r := h.r
 	return interceptor.Funcs{
+		// reads of PodMigrationJobs are served by the informer cache (as the manager's delegating client does); pods are
+		// read from the store
+		Get: func(ctx context.Context, c client.WithWatch, key client.ObjectKey, obj client.Object, opts ...client.GetOption) error {
+			if out, ok := obj.(*sev1alpha1.PodMigrationJob); ok {
+				r.Yield("api-get")
+				cj := h.cache[key.Name]
+				if cj == nil {
+					return apierrors.NewNotFound(arbJobGR, key.Name)
+				}
+				cj.DeepCopyInto(out)
+				return nil
+			}
+			return c.Get(ctx, key, obj, opts...)
+		},
 		List: func(ctx context.Context, c client.WithWatch, list client.ObjectList, opts ...client.ListOption) error {
 			r.Yield("api-list")
+			if jl, ok := list.(*sev1alpha1.PodMigrationJobList); ok {
+				h.listCachedJobs(jl, opts)
+				return nil
+			}
 			return c.List(ctx, list, opts...)
 		},
 		Create: func(ctx context.Context, c client.WithWatch, obj client.Object, opts ...client.CreateOption) error {
@@ -518,7 +672,6 @@ func (h *arbSim) interceptors() interceptor.Funcs {
 				h.pushEvent("update", old, h.getJob(job.Name))
 				if cp.Annotations[AnnotationPassedArbitration] == "true" && (old == nil || old.Annotations[AnnotationPassedArbitration] != "true") {
 					h.lostAck[job.Name] = true
-					h.lostAckOpen = true
 					r.Probe("passed-update-lost-ack")
 				}
 				r.Event("api update %s -> applied, answer lost", job.Name)
@@ -735,7 +888,7 @@ func (h *arbSim) snapshot() *arbSnap {
 		if ref == nil {
 			continue
 		}
-		if !arbIsReady(p) || migrating[k] {
+		if !arbAvailable(p) || migrating[k] {
 			s.unav["wl/"+strings.TrimPrefix(string(ref.UID), "uid-")]++
 		}
 	}
@@ -797,11 +950,19 @@ func arbSortedKeys(ms ...map[string]int) []string {
 	return ks
 }
 
-// lostAckWindow: is there a pending job whose passed-arbitration update was applied with a lost answer and that the
-// arbitrator still does not remember as passed?
+// lostAckWindow: is there a job that counts in the store (pending and passed, or meanwhile running) whose
+// passed-arbitration update was applied with a lost answer, that the arbitrator does not remember as passed, and that
+// the informer cache still shows as it was before that update (pending, no annotation)?
 func (h *arbSim) lostAckWindow() bool {
 	for _, j := range h.sortedJobs() {
-		if h.lostAck[j.Name] && arbPendingPassed(j) && !h.f.arbitratedPodMigrationJobs[j.UID] {
+		if !h.lostAck[j.Name] || h.f.arbitratedPodMigrationJobs[j.UID] {
+			continue
+		}
+		if !arbPendingPassed(j) && j.Status.Phase != sev1alpha1.PodMigrationJobRunning {
+			continue
+		}
+		cj := h.cache[j.Name]
+		if cj == nil || ((cj.Status.Phase == "" || cj.Status.Phase == sev1alpha1.PodMigrationJobPending) && cj.Annotations[AnnotationPassedArbitration] != "true") {
 			return true
 		}
 	}
@@ -992,6 +1153,28 @@ func (h *arbSim) liveJobsOf(pod *corev1.Pod) []string {
 	return out
 }
 
+// visibleLiveJobsOf: the live jobs of the pod (store) whose existence the informer cache already shows as non-terminal.
+func (h *arbSim) visibleLiveJobsOf(pod *corev1.Pod) []string {
+	var out []string
+	for _, n := range h.liveJobsOf(pod) {
+		if cj := h.cache[n]; cj != nil && !arbTerminal(string(cj.Status.Phase)) {
+			out = append(out, n)
+		}
+	}
+	return out
+}
+
+func arbIntersects(a, b []string) bool {
+	for _, x := range a {
+		for _, y := range b {
+			if x == y {
+				return true
+			}
+		}
+	}
+	return false
+}
+
 // createOp runs on the creator actor, concurrently with the round.
 func (h *arbSim) createOp(op arbOp) {
 	r := h.r
@@ -1000,19 +1183,25 @@ func (h *arbSim) createOp(op arbOp) {
 		return
 	}
 	pod := h.getPod(op.P)
-	if pod == nil {
+	if pod == nil || pod.DeletionTimestamp != nil {
+		// nobody asks to migrate a pod that is already on its way out
 		r.OpSkipped()
 		return
 	}
 	if op.By == "desched" {
-		// the descheduler asks the arbitrator's Filter before it creates a job for a pod (MigrationController.Filter)
-		liveBefore := h.liveJobsOf(pod)
+		// the descheduler asks the arbitrator's Filter before it creates a job for a pod (MigrationController.Filter).
+		// It can only know the jobs its informer has been told about: a live job counts against the verdict if it is
+		// live in the store and its creation has reached the cache, both when Filter was called and when it returned.
+		liveBefore := h.visibleLiveJobsOf(pod)
 		ok := h.a.Filter(pod.DeepCopy())
-		liveAfter := h.liveJobsOf(pod)
+		liveAfter := h.visibleLiveJobsOf(pod)
 		r.OracleEval()
-		r.Event("filter pod %s -> %v (live jobs %v)", pod.Name, ok, liveAfter)
-		if ok && len(liveBefore) > 0 && len(liveAfter) > 0 {
-			r.Fail("second-live-job", "filter-admits", "Filter admitted pod %s/%s for a new migration job although it already has live job(s) %v", pod.Namespace, pod.Name, liveAfter)
+		r.Event("filter pod %s -> %v (live jobs %v, visible %v)", pod.Name, ok, h.liveJobsOf(pod), liveAfter)
+		if ok && arbIntersects(liveBefore, liveAfter) {
+			r.Fail("second-live-job", "filter-admits", "Filter admitted pod %s/%s for a new migration job although it already has live job(s) %v that the informer cache shows", pod.Namespace, pod.Name, liveAfter)
+		}
+		if ok && len(h.liveJobsOf(pod)) > 0 {
+			r.Probe("filter-admits-pod-whose-live-job-the-cache-does-not-show-yet")
 		}
 		if !ok {
 			if len(liveAfter) > 0 {
@@ -1079,13 +1268,107 @@ func arbPendingPassed(j *sev1alpha1.PodMigrationJob) bool {
 	return (j.Status.Phase == "" || j.Status.Phase == sev1alpha1.PodMigrationJobPending) && j.Annotations[AnnotationPassedArbitration] == "true"
 }
 
+// removePod takes a pod out of the store for good (a terminating pod is held by its finalizer).
+func (h *arbSim) removePod(p *corev1.Pod) {
+	ctx := context.TODO()
+	key := p.Namespace + "/" + p.Name
+	cur := &corev1.Pod{}
+	if err := h.base.Get(ctx, types.NamespacedName{Namespace: p.Namespace, Name: p.Name}, cur); err == nil {
+		if len(cur.Finalizers) > 0 {
+			cur.Finalizers = nil
+			if err := h.base.Update(ctx, cur); err != nil {
+				h.r.HarnessFail("strip finalizer of pod %s: %v", key, err)
+			}
+		}
+		if err := h.base.Delete(ctx, cur); err != nil && !apierrors.IsNotFound(err) {
+			h.r.HarnessFail("delete pod %s: %v", key, err)
+		}
+	}
+	delete(h.podM, key)
+	for i, k := range h.terminating {
+		if k == key {
+			h.terminating = append(h.terminating[:i:i], h.terminating[i+1:]...)
+			break
+		}
+	}
+}
+
+// terminatePod starts the graceful termination of a pod: the API server sets its deletionTimestamp, the pod stays Running
+// and Ready until the kubelet has stopped its containers.
+func (h *arbSim) terminatePod(p *corev1.Pod) bool {
+	ctx := context.TODO()
+	cur := &corev1.Pod{}
+	if err := h.base.Get(ctx, types.NamespacedName{Namespace: p.Namespace, Name: p.Name}, cur); err != nil || cur.DeletionTimestamp != nil {
+		return false
+	}
+	cur.Finalizers = []string{arbGraceFinalizer}
+	if err := h.base.Update(ctx, cur); err != nil {
+		h.r.HarnessFail("add finalizer to pod %s: %v", p.Name, err)
+	}
+	if err := h.base.Delete(ctx, cur); err != nil {
+		h.r.HarnessFail("graceful delete of pod %s: %v", p.Name, err)
+	}
+	np := h.syncPod(p.Namespace, p.Name)
+	if np == nil || np.DeletionTimestamp == nil {
+		h.r.HarnessFail("pod %s is not terminating after its graceful deletion", p.Name)
+	}
+	h.terminating = append(h.terminating, p.Namespace+"/"+p.Name)
+	if np.Status.Phase == corev1.PodRunning && podutilIsReadyCond(np) {
+		h.r.Probe("pod-terminating-while-running-and-ready")
+	}
+	return true
+}
+
+// podutilIsReadyCond: the pod's Ready condition is true (regardless of deletion).
+func podutilIsReadyCond(p *corev1.Pod) bool {
+	for _, c := range p.Status.Conditions {
+		if c.Type == corev1.PodReady {
+			return c.Status == corev1.ConditionTrue
+		}
+	}
+	return false
+}
+
+// retirePod ends the life of pod slot i's current pod the way an eviction or a deletion does. mode 0: the pod is gone at
+// once and its replacement exists; 1: the pod is terminating and its replacement is already ready; 2: terminating,
+// replacement not ready yet; 3: terminating, no replacement yet (it appears when the pod is gone).
+func (h *arbSim) retirePod(i int, mode int, node int, readyAtOnce bool) {
+	old := h.getPod(i)
+	if old == nil {
+		return
+	}
+	if old.DeletionTimestamp != nil {
+		mode = 0 // already terminating: now it disappears
+	}
+	switch mode {
+	case 0:
+		h.replacePod(i, node, readyAtOnce)
+	case 1, 2:
+		if h.terminatePod(old) {
+			h.pods[i].gen++
+			h.createPod(i, node, mode == 1)
+		}
+	default:
+		h.terminatePod(old)
+	}
+}
+
 func (h *arbSim) replacePod(i int, node int, ready bool) {
 	if old := h.getPod(i); old != nil {
-		_ = h.base.Delete(context.TODO(), old)
-		delete(h.podM, old.Namespace+"/"+old.Name)
+		h.removePod(old)
 	}
 	h.pods[i].gen++
 	h.createPod(i, node, ready)
+}
+
+// slotOf: the pod slot whose current pod is ns/name (-1: none, e.g. a terminating pod that was already replaced).
+func (h *arbSim) slotOf(ns, name string) int {
+	for i := range h.cfg.Pods {
+		if h.podName(i) == name && h.podNS(i) == ns {
+			return i
+		}
+	}
+	return -1
 }
 
 // envOp runs on the driver between two rounds (nothing of the arbitrator is running).
@@ -1114,8 +1397,8 @@ func (h *arbSim) envOp(op arbOp) {
 				r.HarnessFail("seed job status: %v", err)
 			}
 		}
-		h.getJob(job.Name)
-		// it passed an earlier round of this arbitrator
+		// the informer's initial list has it, and it passed an earlier round of this arbitrator
+		h.cache[job.Name] = h.getJob(job.Name)
 		h.f.markJobPassedArbitration(job.UID)
 		h.delivered[job.Name] = true
 		h.createdBy[job.Name] = "seed"
@@ -1130,25 +1413,33 @@ func (h *arbSim) envOp(op arbOp) {
 		h.setPhase(j, sev1alpha1.PodMigrationJobRunning)
 		r.Event("env start %s", j.Name)
 	case "finish":
-		j := h.pickJob(func(j *sev1alpha1.PodMigrationJob) bool {
-			return j.Status.Phase == sev1alpha1.PodMigrationJobRunning || (op.Phase != "Succeeded" && arbPendingPassed(j))
-		})
-		if j == nil {
-			r.OpSkipped()
-			return
-		}
 		ph := sev1alpha1.PodMigrationJobPhase(op.Phase)
 		if ph != sev1alpha1.PodMigrationJobSucceeded && ph != sev1alpha1.PodMigrationJobFailed && ph != sev1alpha1.PodMigrationJobAborted {
 			r.OpSkipped()
 			return
 		}
+		// a running job ends; a passed job may also be picked up, run and end within one arbitration interval
+		j := h.pickJob(func(j *sev1alpha1.PodMigrationJob) bool {
+			return j.Status.Phase == sev1alpha1.PodMigrationJobRunning || arbPendingPassed(j)
+		})
+		if j == nil {
+			r.OpSkipped()
+			return
+		}
+		if ph == sev1alpha1.PodMigrationJobSucceeded && j.Status.Phase != sev1alpha1.PodMigrationJobRunning {
+			h.setPhase(j, sev1alpha1.PodMigrationJobRunning)
+			j = h.getJob(j.Name)
+		}
 		h.setPhase(j, ph)
 		if ph == sev1alpha1.PodMigrationJobSucceeded && j.Spec.PodRef != nil {
-			// the pod was evicted; its replacement is a new pod somewhere else, possibly not ready yet
-			for i := range h.cfg.Pods {
-				if h.podName(i) == j.Spec.PodRef.Name && h.podNS(i) == j.Spec.PodRef.Namespace {
-					h.replacePod(i, r.Choose(h.cfg.Nodes), r.Flip(0.7))
+			// the pod was evicted: it is gone, or still in its graceful termination (running and ready until its containers
+			// have stopped); its replacement is a new pod somewhere else, possibly not ready or not even created yet
+			if i := h.slotOf(j.Spec.PodRef.Namespace, j.Spec.PodRef.Name); i >= 0 {
+				mode := 0
+				if r.Flip(0.6) {
+					mode = 1 + r.Choose(3)
 				}
+				h.retirePod(i, mode, r.Choose(h.cfg.Nodes), r.Flip(0.7))
 			}
 		}
 		r.Event("env finish %s %s", j.Name, ph)
@@ -1188,8 +1479,7 @@ func (h *arbSim) envOp(op arbOp) {
 			r.OpSkipped()
 			return
 		}
-		_ = h.base.Delete(context.TODO(), p)
-		delete(h.podM, p.Namespace+"/"+p.Name)
+		h.removePod(p)
 		if len(h.liveJobsOf(p)) > 0 {
 			r.Probe("pod-of-live-or-waiting-job-deleted")
 		}
@@ -1201,6 +1491,53 @@ func (h *arbSim) envOp(op arbOp) {
 		}
 		h.replacePod(op.P, op.V, true)
 		r.Event("env pod %d replaced by %s on n%d", op.P, h.podName(op.P), op.V)
+	case "pod_terminate":
+		p := (*corev1.Pod)(nil)
+		if h.podOK(op.P) {
+			p = h.getPod(op.P)
+		}
+		if p == nil || p.DeletionTimestamp != nil {
+			r.OpSkipped()
+			return
+		}
+		h.retirePod(op.P, 1+r.Choose(3), r.Choose(h.cfg.Nodes), true)
+		if len(h.liveJobsOf(p)) > 0 {
+			r.Probe("pod-of-live-or-waiting-job-terminating")
+		}
+		r.Event("env pod %s terminating", p.Name)
+	case "pod_gone":
+		if len(h.terminating) == 0 {
+			r.OpSkipped()
+			return
+		}
+		key := h.terminating[r.Choose(len(h.terminating))]
+		p := h.podM[key]
+		if p == nil {
+			r.HarnessFail("terminating pod %s is not in the store", key)
+		}
+		if i := h.slotOf(p.Namespace, p.Name); i >= 0 {
+			h.replacePod(i, r.Choose(h.cfg.Nodes), r.Flip(0.7)) // its replacement appears only now
+		} else {
+			h.removePod(p)
+		}
+		r.Event("env pod %s gone", key)
+	case "resync":
+		if len(h.cache) == 0 {
+			r.OpSkipped()
+			return
+		}
+		h.resync()
+	case "sync":
+		if len(h.events) == 0 {
+			r.OpSkipped()
+			return
+		}
+		for len(h.events) > 0 {
+			ev := h.events[0]
+			h.events = h.events[1:]
+			h.deliver(ev)
+		}
+		r.Probe("informer-caught-up-between-rounds")
 	case "scale":
 		if op.W < 0 || op.W >= len(h.replicas) || op.V < 1 || (h.cfg.WlPercent && op.V%4 != 0) {
 			r.OpSkipped()
@@ -1215,34 +1552,38 @@ func (h *arbSim) envOp(op arbOp) {
 	r.OpDone()
 }
 
-// deliver hands one informer event to the real event handler.
+// deliver hands one informer event to the real event handler, after the informer cache has taken it in (a shared informer
+// updates its indexer before it notifies the handlers; the old object of an update is what the cache held).
 func (h *arbSim) deliver(ev arbEvent) {
 	ctx := context.TODO()
+	name := ev.obj.Name
+	prev := h.cache[name]
 	switch ev.kind {
 	case "add":
-		h.delivered[ev.obj.Name] = true
+		h.cache[name] = ev.obj.DeepCopy()
+		h.delivered[name] = true
 		h.handler.Create(ctx, event.TypedCreateEvent[client.Object]{Object: ev.obj.DeepCopy()}, h.queue)
 	case "update":
-		var o, n client.Object
-		if ev.old != nil {
-			o = ev.old.DeepCopy()
+		if prev == nil {
+			h.r.HarnessFail("update event for job %s that the informer cache does not hold", name)
 		}
-		if ev.obj != nil {
-			n = ev.obj.DeepCopy()
-		} else {
-			return
-		}
-		h.handler.Update(ctx, event.TypedUpdateEvent[client.Object]{ObjectOld: o, ObjectNew: n}, h.queue)
+		h.cache[name] = ev.obj.DeepCopy()
+		h.handler.Update(ctx, event.TypedUpdateEvent[client.Object]{ObjectOld: prev.DeepCopy(), ObjectNew: ev.obj.DeepCopy()}, h.queue)
 	case "delete":
-		h.handler.Delete(ctx, event.TypedDeleteEvent[client.Object]{Object: ev.obj.DeepCopy()}, h.queue)
+		delete(h.cache, name)
+		last := ev.obj
+		if prev != nil {
+			last = prev // the handler is given the last state the cache knew
+		}
+		h.handler.Delete(ctx, event.TypedDeleteEvent[client.Object]{Object: last.DeepCopy()}, h.queue)
 	}
-	h.r.Event("deliver %s %s", ev.kind, ev.obj.Name)
+	h.r.Event("deliver %s %s rv=%s", ev.kind, name, ev.obj.ResourceVersion)
 }
 
 // ---------------------------------------------------------------- execution
 
 func (arbiterEngine) Execute(r *sim.Run) {
-	h := &arbSim{r: r, podM: map[string]*corev1.Pod{}, jobM: map[string]*sev1alpha1.PodMigrationJob{}, delivered: map[string]bool{}, statusFlt: map[string]bool{}, lostAck: map[string]bool{}, createdBy: map[string]string{}}
+	h := &arbSim{r: r, podM: map[string]*corev1.Pod{}, jobM: map[string]*sev1alpha1.PodMigrationJob{}, cache: map[string]*sev1alpha1.PodMigrationJob{}, delivered: map[string]bool{}, statusFlt: map[string]bool{}, lostAck: map[string]bool{}, createdBy: map[string]string{}}
 	r.Plan.GetCfg(&h.cfg)
 	var ops []arbOp
 	r.Plan.GetOps(&ops)
@@ -1285,6 +1626,13 @@ func (arbiterEngine) Execute(r *sim.Run) {
 			cur = segment{}
 		case "create", "dup_add":
 			cur.conc = append(cur.conc, op)
+		case "resync":
+			// before the first job of the segment: between the rounds; after it: while the round runs
+			if len(cur.conc) > 0 {
+				cur.conc = append(cur.conc, op)
+			} else {
+				cur.env = append(cur.env, op)
+			}
 		default:
 			cur.env = append(cur.env, op)
 		}
@@ -1297,15 +1645,25 @@ func (arbiterEngine) Execute(r *sim.Run) {
 			h.envOp(op)
 		}
 		before := h.snapshot()
-		h.lostAckOpen = h.lostAckWindow()
-		if h.lostAckOpen {
-			r.Probe("round-starts-with-lost-ack-job-unknown-to-arbitrator")
+		h.lostAckOpen = false // decided whenever the code under test lists the jobs from its cache (listCachedJobs)
+		if h.lostAckWindow() {
+			r.Probe("round-starts-with-lost-ack-job-hidden-by-cache-lag")
+		}
+		for _, k := range h.terminating {
+			if p := h.podM[k]; p != nil && p.Status.Phase == corev1.PodRunning && podutilIsReadyCond(p) && metav1.GetControllerOf(p) != nil {
+				r.Probe("round-starts-with-terminating-pod-still-running-and-ready")
+				break
+			}
+		}
+		if len(h.events) > 0 {
+			r.Probe("round-starts-with-undelivered-job-events")
 		}
 		waitingBefore := map[string]bool{}
 		for _, j := range h.a.waitingCollection {
 			waitingBefore[j.Name] = true
 		}
 		h.creatorsOn, h.timerOn = true, true
+		h.resyncPending = 0
 		conc := seg.conc
 		// the arbitration interval elapses, then one round runs while jobs keep arriving
 		time.Sleep(time.Duration(cfg.IntervalMS) * time.Millisecond)
@@ -1320,25 +1678,47 @@ func (arbiterEngine) Execute(r *sim.Run) {
 				if r.Flip(0.15) {
 					r.Sleep(time.Duration(1+r.Choose(3)) * time.Second)
 				}
-				if op.K == "create" {
+				switch op.K {
+				case "create":
 					h.createOp(op)
-				} else {
+				case "resync":
+					// the resync timer of the informer fires; the informer actor hands the cached jobs to the handler
+					if len(h.cache) == 0 {
+						r.OpSkipped()
+					} else {
+						h.resyncPending++
+						r.OpDone()
+					}
+				default:
 					h.dupAddOp(op)
 				}
 			}
 			h.creatorsOn = false
 		})
 		r.Spawn("informer", func() {
+			// the watch may stall for a whole round (everything is delivered during a later round), or from some event on;
+			// a resync is local to the informer and happens all the same, out of the stale cache
+			stalled := !last && r.Flip(0.15)
+			if stalled {
+				r.Probe("informer-stalled-for-the-round")
+			}
 			for {
-				r.WaitUntil("informer", func() bool { return len(h.events) > 0 || (!h.creatorsOn && !h.timerOn) })
-				if len(h.events) == 0 {
+				r.WaitUntil("informer", func() bool {
+					return h.resyncPending > 0 || (!stalled && len(h.events) > 0) || (!h.creatorsOn && !h.timerOn)
+				})
+				if h.resyncPending > 0 {
+					h.resyncPending--
+					h.resync()
+					continue
+				}
+				if stalled || len(h.events) == 0 {
 					return
 				}
 				if !last && r.Flip(0.1) {
 					// watch lag: the rest is delivered during a later round
 					r.Probe("informer-lag")
-					r.WaitUntil("informer-lag", func() bool { return !h.creatorsOn && !h.timerOn })
-					return
+					stalled = true
+					continue
 				}
 				ev := h.events[0]
 				h.events = h.events[1:]
